@@ -171,7 +171,7 @@ func cmdCheck(args []string) {
 	}
 	work, _ := os.MkdirTemp("", "gvc")
 	defer os.RemoveAll(work)
-	cfg := &SolverCfg{WorkDir: work, Quick: 3 * time.Second, Full: 30 * time.Second, Parallel: 16}
+	cfg := &SolverCfg{WorkDir: work, Quick: 3 * time.Second, Full: 30 * time.Second, Parallel: parallelism()}
 	if *tier == "thorough" {
 		cfg.Quick = 10 * time.Second
 		cfg.AllAgree = true
@@ -201,6 +201,7 @@ func cmdCheck(args []string) {
 	trustedUsed := map[string]bool{}
 	sources := map[string]string{}
 	totalObl, totalDis, totalSub := 0, 0, 0
+	otherProps := 0
 	var solverMs int64
 	var variantsRun []string
 	solverCount := map[string]int{}
@@ -251,6 +252,26 @@ func cmdCheck(args []string) {
 			if r.Err != "" {
 				failures = append(failures, failure{name: r.Name + " / verification-error", fr: r, reason: r.Err, P: P})
 				continue
+			}
+			// clauses tagged with other properties ("ensures [C18] ...") are proved by those properties' checks
+			{
+				kept := r.Obls[:0]
+				for _, o := range r.Obls {
+					if len(o.Props) > 0 {
+						mine := false
+						for _, p := range o.Props {
+							if p == id {
+								mine = true
+							}
+						}
+						if !mine {
+							otherProps++
+							continue
+						}
+					}
+					kept = append(kept, o)
+				}
+				r.Obls = kept
 			}
 			for _, t := range r.Trusted {
 				trustedUsed[t] = true
@@ -499,22 +520,23 @@ func cmdCheck(args []string) {
 		"seed":        seed,
 		"level":       "proof",
 		"coverage": map[string]interface{}{
-			"obligations":              totalObl,
-			"discharged":               totalDis,
-			"subgoals":                 totalSub,
-			"checker_cmd":              fmt.Sprintf("/verif/bin/gvc check -tier %s %s  (per sub-goal: z3-new -smt2 | z3 -smt2 | cvc5 --lang smt2, first definitive answer)", *tier, id),
-			"trusted_base":             tb,
-			"functions_under_contract": funcReports,
-			"obligation_list":          oblReports,
-			"solver_time_s":            float64(solverMs) / 1000.0,
-			"subgoals_by_back_end":     solverCount,
-			"cross_check":              map[string]interface{}{"enabled": cfg.AllAgree, "second_opinions_asked": atomic.LoadInt64(&crossAsked), "confirmed_unsat": atomic.LoadInt64(&crossConfirmed), "note": "thorough tier: every ground query that z3 5.1 answers unsat is also given to cvc5 and z3 4.8.12 (10 s each); a sat answer fails the obligation, timeouts are tolerated"},
-			"build_variants":           variantsRun,
-			"source_sha256":            srcMap,
-			"bounded":                  boundedReports,
-			"known_findings_seen":      knownSeen,
-			"samples":                  samples,
-			"explanation":              "Every function listed under functions_under_contract is symbolically executed (go/ssa naive form of the current /repo working tree) against its //@ contract; callees are replaced by their contracts; each obligation (ensures, frame, loop invariant, call precondition, bounds, nil, overflow, panic) is one or more SMT sub-goals, discharged iff the solver answers unsat. 'bounded' entries are not counted as obligations.",
+			"obligations":                          totalObl,
+			"discharged":                           totalDis,
+			"subgoals":                             totalSub,
+			"checker_cmd":                          fmt.Sprintf("/verif/bin/gvc check -tier %s %s  (per sub-goal: z3-new -smt2 | z3 -smt2 | cvc5 --lang smt2, first definitive answer)", *tier, id),
+			"trusted_base":                         tb,
+			"functions_under_contract":             funcReports,
+			"obligation_list":                      oblReports,
+			"solver_time_s":                        float64(solverMs) / 1000.0,
+			"subgoals_by_back_end":                 solverCount,
+			"obligations_left_to_other_properties": otherProps,
+			"cross_check":                          map[string]interface{}{"enabled": cfg.AllAgree, "second_opinions_asked": atomic.LoadInt64(&crossAsked), "confirmed_unsat": atomic.LoadInt64(&crossConfirmed), "note": "thorough tier: every ground query that z3 5.1 answers unsat is also given to cvc5 and z3 4.8.12 (10 s each); a sat answer fails the obligation, timeouts are tolerated"},
+			"build_variants":                       variantsRun,
+			"source_sha256":                        srcMap,
+			"bounded":                              boundedReports,
+			"known_findings_seen":                  knownSeen,
+			"samples":                              samples,
+			"explanation":                          "Every function listed under functions_under_contract is symbolically executed (go/ssa naive form of the current /repo working tree) against its //@ contract; callees are replaced by their contracts; each obligation (ensures, frame, loop invariant, call precondition, bounds, nil, overflow, panic) is one or more SMT sub-goals, discharged iff the solver answers unsat. 'bounded' entries are not counted as obligations.",
 		},
 		"assumptions": assumptions,
 		"wall_s":      time.Since(t0).Seconds(),
